@@ -39,6 +39,15 @@ def models():
                 p.add_(0.2 * torch.randn(p.shape, generator=g))
         return m
 
+    def warmed(m, d):
+        # running statistics as training leaves them: two training-mode passes over non-centred data
+        m.train()
+        g = torch.Generator().manual_seed(21)
+        with torch.no_grad():
+            for _ in range(2):
+                m.log_prob(torch.randn(32, d, generator=g) * 1.7 + 1.3)
+        return m
+
     return {
         "Flow(affine|StandardNormal)": (lambda: FL.base.Flow(TR.PointwiseAffineTransform(shift=0.5, scale=2.0), D.StandardNormal([2])), (2,), "optional", 3, False),
         "Flow(affine|CondNormal)/marker": (lambda: FL.base.Flow(TR.PointwiseAffineTransform(shift=0.5, scale=2.0), D.ConditionalDiagonalNormal([2])), (2,), "required", 4, True),
@@ -49,6 +58,8 @@ def models():
         "Flow(Inverse(MAF ctx)|StandardNormal)": (lambda: perturb(FL.base.Flow(TR.InverseTransform(TR.MaskedAffineAutoregressiveTransform(3, 8, context_features=3, num_blocks=1)), D.StandardNormal([3])), 5), (3,), "required", 3, False),
         "Flow(NaiveLinear cached + affine|StandardNormal)": (lambda: perturb(FL.base.Flow(TR.CompositeTransform([TR.NaiveLinear(3, orthogonal_initialization=False, using_cache=True), TR.PointwiseAffineTransform(shift=torch.tensor([0.3, -0.2, 0.1]), scale=torch.tensor([1.5, 0.7, 2.0]))]), D.StandardNormal([3])), 7), (3,), "none", 0, False),
         "Flow(SVD + affine|StandardNormal)": (lambda: perturb(FL.base.Flow(TR.CompositeTransform([TR.SVDLinear(3, num_householder=4, identity_init=False), TR.PointwiseAffineTransform(shift=torch.tensor([0.1, -0.3, 0.2]), scale=torch.tensor([2.0, 0.6, 1.3])), TR.QRLinear(3, num_householder=3)]), D.StandardNormal([3])), 13), (3,), "none", 0, False),
+        "MaskedAutoregressiveFlow/batch-norm-between (statistics from training passes)": (lambda: warmed(perturb(FL.MaskedAutoregressiveFlow(3, 8, num_layers=2, num_blocks_per_layer=1, batch_norm_between_layers=True)), 3), (3,), "none", 0, False),
+        "SimpleRealNVP/batch-norm-between (statistics from training passes)": (lambda: warmed(perturb(FL.SimpleRealNVP(4, 8, num_layers=2, num_blocks_per_layer=1, batch_norm_between_layers=True)), 4), (4,), "none", 0, False),
         "MaskedAutoregressiveFlow": (lambda: perturb(FL.MaskedAutoregressiveFlow(3, 8, num_layers=2, num_blocks_per_layer=1)), (3,), "none", 0, False),
         "MaskedAutoregressiveFlow/random-permutations": (lambda: perturb(FL.MaskedAutoregressiveFlow(4, 8, num_layers=2, num_blocks_per_layer=1, use_random_permutations=True)), (4,), "none", 0, False),
         "Flow(Logit T=1.5 + LU|StandardNormal)": (lambda: perturb(FL.base.Flow(TR.CompositeTransform([TR.Logit(temperature=1.5), TR.LULinear(3, identity_init=False)]), D.StandardNormal([3])), 9), (3,), "none", 0, False),
@@ -111,6 +122,7 @@ def task(t):
         if (cmode == "none" and rows > 0) or (cmode == "required" and rows == 0):
             continue
         ctx = make_context(torch, rows, width, marker, g)
+        ctx0 = ctx.clone() if ctx is not None else None   # what the caller passed, whatever the call does to it
         case = {"model": name, "op": op, "n": n, "rows": rows, "bs": (int(call["bs"]["v"]) if op == "sample" and str(call["bs"]["k"]) == "int" else None), "seed": seed, "history": history}
         out["n"] += 1
         torch.manual_seed(seed + 5)
@@ -133,7 +145,7 @@ def task(t):
         with torch.no_grad():
             if rows:
                 x = s.reshape(rows * n, *event)
-                c = ctx.repeat_interleave(n, dim=0)
+                c = ctx0.repeat_interleave(n, dim=0)
                 lp2 = m.log_prob(x, context=c).reshape(rows, n)
             else:
                 lp2 = m.log_prob(s)
@@ -173,13 +185,13 @@ def task(t):
             torch.randn = fake
             try:
                 with torch.no_grad():
-                    s2 = m.sample(n, context=ctx)
+                    s2 = m.sample(n, context=ctx0.clone())
             finally:
                 torch.randn = orig
             z = ((torch.arange(rows * n * event[0], dtype=torch.float32)).reshape(rows, n, event[0]) * 0.125 - 1.0)
             d = width // 2
-            mean = ctx[:, :d].unsqueeze(1)
-            std = torch.exp(ctx[:, d:]).unsqueeze(1)
+            mean = ctx0[:, :d].unsqueeze(1)
+            std = torch.exp(ctx0[:, d:]).unsqueeze(1)
             expect = mean + std * z
             if isflow:
                 expect = (expect - 0.5) / 2.0
